@@ -647,13 +647,14 @@ def mgrComplete (c : Ctx) (s : St) (obs : List Obs) (o : Outcome) : Out :=
              let twice := match o with | .value _ => e.isException | _ => false
              mgrReturn c s (if twice then obs ++ [.pcomplete (.error e)] else obs) (.raised e))
 
-/-- `manager.run` after its wait predicate became true, through `chart.run`'s result handling -/
+/-- the outcome `manager.run` computes: the exception of a finished task (`_get_first_error_in_tasks`), else the output's value -/
+def finishOutcome (c : Ctx) (s : St) : Outcome :=
+  match (taskErrors s)[c.pick % (max (taskErrors s).length 1)]? with
+  | some e => if e.isException then .error e else .raised e
+  | none => .value (s.getHid c.P.g.output)
+
 def mgrFinish (c : Ctx) (s : St) (obs : List Obs) : Out :=
-  let errs := taskErrors s
-  let o : Outcome := match errs[c.pick % (max errs.length 1)]? with
-    | some e => if e.isException then .error e else .raised e
-    | none => .value (s.getHid c.P.g.output)
-  mgrComplete c (cancelTasks s (liveTasks s c.t)) obs o
+  mgrComplete c (cancelTasks s (liveTasks s c.t)) obs (finishOutcome c s)
 
 def mgrCheck (c : Ctx) (s : St) (obs : List Obs) : Out :=
   if !(taskErrors s).isEmpty || s.exists c.P.g.output then mgrFinish c s obs
